@@ -33,10 +33,118 @@ type c35Scenario struct {
 	Mode    uint32 `json:"mode"`    // permission bits of the target
 	Kind    string `json:"kind"`    // regular | symlink | fifo | walk
 	Tmp     string `json:"tmp"`     // same: $TMPDIR on the target's file system; missing: $TMPDIR does not exist; otherfs: $TMPDIR on another file system
+	// Umask is the file mode creation mask shfmt starts with. The bits a newly
+	// created (temporary) file loses are Mode&Umask: when that is non-zero the
+	// replacement can only get the target's permission bits through an explicit
+	// chmod, and the order of that chmod and the rename is observable.
+	Umask uint32 `json:"umask"`
 }
 
 func (s c35Scenario) key() string {
-	return fmt.Sprintf("%s/%04o/%s/tmp-%s", s.Content, s.Mode, s.Kind, s.Tmp)
+	return fmt.Sprintf("%s/%04o/%s/tmp-%s/umask-%03o", s.Content, s.Mode, s.Kind, s.Tmp, s.Umask)
+}
+
+// The mode and umask values. c35OldModes are the four common modes (none of
+// them has a bit in common with umask 022); c35WideModes add group/other write
+// bits, so that under every non-zero umask some enumerated mode loses bits at
+// file creation and some does not.
+var (
+	c35OldModes  = []uint32{0o644, 0o600, 0o755, 0o444}
+	c35WideModes = []uint32{0o664, 0o666, 0o775, 0o777}
+	c35Umasks    = []uint32{0o022, 0o077, 0o000}
+)
+
+// c35Scenarios lists the scenario space of a tier, as a union of products, in
+// the order they are run. When the time budget expires the tail is what is
+// lost, so the order is breadth first: one scenario of every target kind and
+// one where the umask clears mode bits, then the quick tier's mode x umask
+// grid, then the quick subset of the base product; the thorough tier goes on
+// with the full grid and the full base product.
+func c35Scenarios(quick bool, tmps []string) []c35Scenario {
+	var out []c35Scenario
+	seen := map[string]bool{}
+	add := func(sc c35Scenario) {
+		if !seen[sc.key()] {
+			seen[sc.key()] = true
+			out = append(out, sc)
+		}
+	}
+	allModes := append(append([]uint32{}, c35OldModes...), c35WideModes...)
+	allContents := []string{"empty", "line", "big", "formatted"}
+	allKinds := []string{"regular", "symlink", "fifo", "walk"}
+	{
+		add(c35Scenario{"line", 0o664, "regular", "same", 0o022})
+		for _, k := range []string{"symlink", "fifo", "walk"} {
+			add(c35Scenario{"line", 0o644, k, "same", 0o022})
+		}
+		// G (quick): a one-line file named directly, $TMPDIR on the same file
+		// system: umask 022 x the four modes with group/other write bits (bits
+		// 020 or 022 are lost at creation), umask 077 x three common modes and
+		// 0777 (044, 055, 077 lost) and 0600 (nothing lost), umask 000 x 0666
+		// (nothing lost although the mode is the widest a create can ask for)
+		for _, mu := range [][2]uint32{
+			{0o664, 0o022}, {0o666, 0o022}, {0o775, 0o022}, {0o777, 0o022},
+			{0o644, 0o077}, {0o755, 0o077}, {0o444, 0o077}, {0o777, 0o077}, {0o600, 0o077},
+			{0o666, 0o000},
+		} {
+			add(c35Scenario{"line", mu[0], "regular", "same", mu[1]})
+		}
+		// and through a directory walk for one pair per umask
+		add(c35Scenario{"line", 0o775, "walk", "same", 0o022})
+		add(c35Scenario{"line", 0o644, "walk", "same", 0o077})
+		// A (quick): the subset of the base product below
+		for _, ct := range allContents {
+			for _, m := range c35OldModes {
+				for _, k := range allKinds {
+					for _, t := range tmps {
+						if sc := (c35Scenario{ct, m, k, t, 0o022}); c35QuickSubset(sc) {
+							add(sc)
+						}
+					}
+				}
+			}
+		}
+	}
+	if quick {
+		return out
+	}
+	// G: the full mode x umask grid on both write paths (file named directly,
+	// file found by a directory walk), one-line content, $TMPDIR usable
+	for _, u := range c35Umasks {
+		for _, m := range allModes {
+			for _, k := range []string{"regular", "walk"} {
+				add(c35Scenario{"line", m, k, "same", u})
+			}
+		}
+	}
+	// G2: masked and unmasked modes where the temporary file is created next
+	// to the target ($TMPDIR missing or on another file system), and for the
+	// other rewritten contents
+	for _, u := range []uint32{0o022, 0o077} {
+		for _, m := range []uint32{0o664, 0o777, 0o600} {
+			for _, t := range tmps {
+				add(c35Scenario{"line", m, "regular", t, u})
+			}
+			for _, ct := range []string{"empty", "big"} {
+				add(c35Scenario{ct, m, "regular", "same", u})
+			}
+		}
+	}
+	// refusals must not depend on the mask either
+	for _, k := range []string{"symlink", "fifo"} {
+		add(c35Scenario{"line", 0o666, k, "same", 0o077})
+	}
+	// A: the base product under the usual umask 022
+	for _, ct := range allContents {
+		for _, m := range c35OldModes {
+			for _, k := range allKinds {
+				for _, t := range tmps {
+					add(c35Scenario{ct, m, k, t, 0o022})
+				}
+			}
+		}
+	}
+	return out
 }
 
 type c35Case struct {
@@ -297,7 +405,8 @@ func (e *c35Env) sigs(evs []crash.Event) []string {
 
 func c35Norm(p string) string { return crash.NormPath(p) }
 
-// c35QuickSubset: the quick tier runs every crash point of these scenarios.
+// c35QuickSubset: the part of the base product (umask 022, the four common
+// modes) whose every crash point the quick tier runs.
 func c35QuickSubset(sc c35Scenario) bool {
 	line := sc.Content == "line"
 	switch sc.Kind {
@@ -390,31 +499,22 @@ func c35(c *vc.Ctx) {
 	}
 
 	// scenario space
-	allContents := []string{"empty", "line", "big", "formatted"}
-	allModes := []uint32{0o644, 0o600, 0o755, 0o444}
-	allKinds := []string{"regular", "symlink", "fifo", "walk"}
 	tmps := []string{"same", "missing"}
 	if otherfs {
 		tmps = append(tmps, "otherfs")
 	} else {
 		c.Count("skipped_otherfs_tmpdir_variant", 1)
 	}
-	var scenarios []c35Scenario
-	for _, ct := range allContents {
-		for _, m := range allModes {
-			for _, k := range allKinds {
-				for _, t := range tmps {
-					sc := c35Scenario{ct, m, k, t}
-					if c.Quick() && !c35QuickSubset(sc) {
-						continue
-					}
-					scenarios = append(scenarios, sc)
-				}
-			}
+	scenarios := c35Scenarios(c.Quick(), tmps)
+	masked := 0
+	for _, sc := range scenarios {
+		if sc.Mode&sc.Umask != 0 {
+			masked++
 		}
 	}
-	c.Rule = fmt.Sprintf("scenarios = contents %v x modes %04o x target kinds %v x $TMPDIR %v (quick tier: a subset of %d scenarios, see c35.go); for each scenario a ptrace-supervised reference run of `shfmt -w <target>` (GOMAXPROCS=1) records the K system-call entries that name a path below the scenario directory/$TMPDIR or a descriptor open on such a file (all calls of the classification table in mc/crash/c35_syscalls.go; a call in no table would be reported as a cap); crash point k in 1..K = SIGKILL of the whole process at the entry stop of the k-th such call from a fresh copy, plus the completed run. Killing at any other system-call boundary leaves the same file-system state as killing at the next relevant one, so every boundary is represented. distinct = (scenario, syscall at the kill point, outcome old/new/same)",
-		allContents, allModes, allKinds, tmps, len(scenarios))
+	c.Count("scenarios_where_the_umask_clears_bits_of_the_target_mode", masked)
+	c.Rule = fmt.Sprintf("scenario = (content, mode, target kind, $TMPDIR, umask of the shfmt process). Thorough space = G: content line x modes %04o x kinds regular/walk x $TMPDIR same x umasks %03o (every relation between the target's mode and the mask: no bit, group/other write bits, or all group/other bits cleared at file creation); G2: modes 0664/0777/0600 x umasks 022/077 x regular x (content line x $TMPDIR %v, contents empty/big x $TMPDIR same); symlink and fifo targets of mode 0666 under umask 077; A: contents [empty line big formatted] x modes %04o x kinds [regular symlink fifo walk] x $TMPDIR %v under umask 022. Quick tier: 12 scenarios of G (10 (mode, umask) pairs on a directly named one-line file, 2 through a walk) and a subset of A; this run: %d scenarios, see c35Scenarios in c35.go. The umask is set in the traced child only (private fs_struct of the tracer thread). For each scenario a ptrace-supervised reference run of `shfmt -w <target>` (GOMAXPROCS=1) records the K system-call entries that name a path below the scenario directory/$TMPDIR or a descriptor open on such a file (all calls of the classification table in mc/crash/c35_syscalls.go; a call in no table would be reported as a cap); crash point k in 1..K = SIGKILL of the whole process at the entry stop of the k-th such call from a fresh copy, plus the completed run. Killing at any other system-call boundary leaves the same file-system state as killing at the next relevant one, so every boundary is represented. distinct = (scenario, syscall at the kill point, outcome old/new/same)",
+		append(append([]uint32{}, c35OldModes...), c35WideModes...), c35Umasks, tmps, c35OldModes, tmps, len(scenarios))
 	c.Assumptions = []string{
 		"process kill only (no power loss): the page cache survives, so fsync ordering is not judged",
 		"the process runs as root on Linux/amd64; ptrace syscall-entry stops abort the call when SIGKILL is pending",
@@ -430,7 +530,8 @@ func c35(c *vc.Ctx) {
 		if err != nil {
 			return nil, nil, err
 		}
-		r, err := crash.Run(crash.Options{Argv: e.argv, Env: e.env, Dir: e.roots[0], Roots: append([]string(nil), e.roots...), KillAt: k, Timeout: 30 * time.Second, OnRelevant: e.onRelevant})
+		umask := int(sc.Umask)
+		r, err := crash.Run(crash.Options{Argv: e.argv, Env: e.env, Dir: e.roots[0], Roots: append([]string(nil), e.roots...), KillAt: k, Timeout: 30 * time.Second, OnRelevant: e.onRelevant, Umask: &umask})
 		if err != nil {
 			e.close()
 			return nil, nil, err
@@ -650,7 +751,7 @@ func c35(c *vc.Ctx) {
 			for k := 0; k <= len(ref.sigs); k++ {
 				emit(c35Case{sc, k})
 			}
-			if ref.err == nil && sc.Content == "line" && sc.Mode == 0o644 && sc.Tmp == "same" {
+			if ref.err == nil && sc.Content == "line" && sc.Tmp == "same" && ((sc.Mode == 0o644 && sc.Umask == 0o022) || (sc.Mode == 0o777 && sc.Umask == 0o077 && sc.Kind == "regular")) {
 				c.Sample(map[string]any{"scenario": sc.key(), "completed_run": ref.status, "relevant_syscalls_in_order": ref.sigs, "all_syscall_entries": ref.total})
 			}
 		}
